@@ -87,18 +87,29 @@ TABLE = [
     ('R11', 'std::cmp::min -> vmin', re.compile(r'\bstd::cmp::min\('), 'vmin('),
     ('R11', 'std::mem::replace -> vreplace', re.compile(r'\bstd::mem::replace\('), 'vreplace('),
     ('R11', 'std::mem::take -> vtake_vec', re.compile(r'\bstd::mem::take\('), 'vtake_vec('),
-    ('R4', 'enum header <R: Read> -> <R: VRead>', re.compile(r'<R: Read>'), '<R: VRead>'),
+    ('R4', 'enum header <R: Read> -> <R: VRead>', re.compile(r'<([RT]): Read>'), r'<\1: VRead>'),
     ('R4', 'brotli::Decompressor<Take<R>> -> VDecompressor<R>', re.compile(r'brotli::Decompressor<Take<(\w+)>>'), r'VDecompressor<\1>'),
     ('R4', 'enum header <W: Write> -> <W: VSink>', re.compile(r'<W: Write>'), '<W: VSink>'),
     ('R4', 'brotli::CompressorWriter<WriterWithCount<W>> -> VCompressorWriter<W>', re.compile(r'brotli::CompressorWriter<WriterWithCount<(\w+)>>'), r'VCompressorWriter<\1>'),
     ('R4', 'brotli::CompressorWriter -> VCompressorWriter', re.compile(r'brotli::CompressorWriter\b'), 'VCompressorWriter'),
+    ('R10', 'D.write_u32::<LittleEndian>(V) -> vio_write_u32_le(D, V)  (D: &mut W)', re.compile(r'\b(dest)\.write_u32::<LittleEndian>\('), r'vio_write_u32_le(\1, '),
     ('R10', 'X.write_u32::<LittleEndian>(V) -> vio_write_u32_le(&mut X, V)', re.compile(r'\b(\w+)\.write_u32::<LittleEndian>\('), r'vio_write_u32_le(&mut \1, '),
     ('R4', 'Box<BrotliState<StandardAlloc, ..>> -> Box<VBrotliState>', re.compile(r'BrotliState<StandardAlloc, StandardAlloc, StandardAlloc>'), 'VBrotliState'),
     ('R4', 'BrotliState::new(StandardAlloc::default() x3) -> VBrotliState::new()',
      re.compile(r'BrotliState::new\(\s*StandardAlloc::default\(\),\s*StandardAlloc::default\(\),\s*StandardAlloc::default\(\),?\s*\)'), 'VBrotliState::new()'),
     ('R4', 'brotli::BrotliDecompressStream -> VBrotliDecompressStream', re.compile(r'brotli::BrotliDecompressStream\b'), 'VBrotliDecompressStream'),
     ('R4', 'brotli::BrotliResult -> VBrotliResult', re.compile(r'brotli::BrotliResult\b'), 'VBrotliResult'),
-    ('R11', 'vec![0u8; N] -> vzeroed(N)', re.compile(r'vec!\[0u8; ([^\]]+)\]'), r'vzeroed(\1)'),
+    ('R11', 'vec![0u8; N] -> vzeroed(N)', re.compile(r'vec!\[\s*0?0u8;\s*([^\]]+?)\s*\]', re.S), r'vzeroed(\1)'),
+    ('R11', 'buf != MLA_MAGIC -> !vbytes_eq(&buf, MLA_MAGIC)', re.compile(r'\bbuf != MLA_MAGIC\b'), '!vbytes_eq(&buf, MLA_MAGIC)'),
+    ('R12', 'bincode::options()[...].deserialize_from(src) -> vbincode_deserialize',
+     re.compile(r'bincode::options\(\)(?:\s*\.with_limit\((\w+)\))?(\s*\.with_fixint_encoding\(\))?\s*\.deserialize_from\(\s*(src)\s*\)'),
+     lambda m: 'vbincode_deserialize(%s, %s, %s)' % (m.group(3), ('Some(%s)' % m.group(1)) if m.group(1) else 'None', 'true' if m.group(2) else 'false')),
+    ('R10', 'X.write_u8(V) -> vio_write_u8(X, V)', re.compile(r'\b(dest)\.write_u8\('), r'vio_write_u8(\1, '),
+    ('R10', 'X.write_u64::<LittleEndian>(V) -> vio_write_u64_le(X, V)', re.compile(r'\b(dest)\.write_u64::<LittleEndian>\('), r'vio_write_u64_le(\1, '),
+    ('R8', 'io::copy(&mut SRC.take(N), DEST) -> vio_copy_take(SRC, N, DEST)', re.compile(r'io::copy\(&mut (\w+)\.take\(([^()]*)\), (\w+)\)'), r'vio_copy_take(\1, \2, \3)'),
+    ('R11', 'S.as_bytes() -> vstr_as_bytes(S)', re.compile(r'\b(filename)\.as_bytes\(\)'), r'vstr_as_bytes(\1)'),
+    ('R11', 'String::from_utf8 -> vstring_from_utf8', re.compile(r'\bString::from_utf8\('), 'vstring_from_utf8('),
+    ('R4', 'std::io::Empty -> VEmpty', re.compile(r'\bstd::io::Empty\b'), 'VEmpty'),
     ('R4', 'Cursor::new -> VCursor::new', re.compile(r'(?<![A-Za-z_:])Cursor::new\('), 'VCursor::new('),
     ('R8', '(&mut X).take(N).read_to_end(&mut V) -> vio_read_to_end_take',
      re.compile(r'\(&mut ([\w.]+)\)\s*\.take\(([^;]*?)\)\s*\.read_to_end\(&mut (\w+)\)'), r'vio_read_to_end_take(&mut \1, \2, &mut \3)'),
@@ -106,7 +117,8 @@ TABLE = [
      re.compile(r'io::copy\(\s*&mut \(&mut (?!decompressor)([\w.]+)\)\.take\(([^;]*?)\),\s*&mut io::sink\(\),?\s*\)'), r'vio_skip_take(&mut \1, \2)'),
     ('R8', 'BufReader::new(buf); io::copy(&mut src.take(n), &mut vec) -> vio_copy_slice_take',
      re.compile(r'let (\w+) = BufReader::new\((\w+)\);\s*io::copy\(&mut \1\.take\((\w+)\), &mut (\w+)\)'), r'vio_copy_slice_take(\2, \3, &mut \4)'),
-    ('R8', 'X.write_all(B) -> vio_write_all(&mut X, B)', re.compile(r'\b(self\.inner|inner|dest|self\.dest)\.write_all\(([^;]*?)\)(\?|;|\s*$)', re.M), r'vio_write_all(&mut \1, \2)\3'),
+    ('R8', 'X.write_all(B) -> vio_write_all(&mut X, B)', re.compile(r'\b(self\.inner|inner|self\.dest)\.write_all\(([^;]*?)\)(\?|;|\s*$)', re.M), r'vio_write_all(&mut \1, \2)\3'),
+    ('R8', 'D.write_all(B) -> vio_write_all(D, B)  (D: &mut W)', re.compile(r'\b(dest)\.write_all\(([^;]*?)\)(\?|;|\s*$)', re.M), r'vio_write_all(\1, \2)\3'),
     ('R11', 'cursor.get_mut().clear() -> cursor.vclear()', re.compile(r'\.get_mut\(\)\s*\.clear\(\)'), '.vclear()'),
     ('R10', 'X.read_u32::<LittleEndian>() -> vio_read_u32_le(X)', re.compile(r'\b(\w+)\.read_u32::<LittleEndian>\(\)'), r'vio_read_u32_le(\1)'),
     ('R10', 'X.read_u64::<LittleEndian>() -> vio_read_u64_le(X)', re.compile(r'\b(\w+)\.read_u64::<LittleEndian>\(\)'), r'vio_read_u64_le(\1)'),
@@ -171,6 +183,11 @@ def apply(text, gen, enabled='', fn_id='?', local=()):
         if hits == before:
             from .gen import Undecided
             raise Undecided(f'{fn_id}: local rewrite {rid} /{pat}/ no longer matches the body (stale rule)')
+    # R3: `ArchiveFileBlockType::X as u8` -> the discriminant written in the enum definition of /repo
+    rx = re.compile(r'(?:ArchiveFileBlockType|Self)::(FileStart|FileContent|EndOfArchiveData|EndOfFile) as u8')
+    if rx.search(out):
+        vals = gen.enum_discriminants('mla/src/lib.rs', 'ArchiveFileBlockType')
+        run('R3', 'ArchiveFileBlockType::X as u8 -> discriminant literal', rx, lambda m: f'{vals[m.group(1)]}u8')
     # R3 last: named constants -> typed literals
     for cname in R3_CONSTS:
         rx = re.compile(r'(?<![A-Za-z0-9_:])' + cname + r'\b')
